@@ -155,9 +155,9 @@ func foldFn(fn *ssa.Function, args []constant.Value) (constant.Value, bool) {
 // E1 token constants
 
 type tokConsts struct {
-	byName map[string]int64
-	byVal  map[int64]string
-	names  []string // in value order
+	byName   map[string]int64
+	byVal    map[int64]string
+	names    []string // in value order
 	dynStart int64
 }
 
@@ -214,13 +214,13 @@ func (c *Ctx) tokConstOf(info *types.Info, e ast.Expr) (int64, bool) {
 // E2 lexeme table
 
 type lexemeTable struct {
-	fixed      map[string]int64  // fixed lexeme -> token type
-	keywords   map[string]int64  // keyword spelling -> token type
-	illegal    []string          // lexemes mapped to ILLEGAL
-	strDelims  map[byte]int64    // opening delimiter -> token type of the open class (STRING / RAW_STRING)
-	identType  bool              // identifier-start class present
-	numTypes   map[int64]bool    // token types produced by the number scanner
-	sites      int               // token construction sites in the dispatcher
+	fixed      map[string]int64 // fixed lexeme -> token type
+	keywords   map[string]int64 // keyword spelling -> token type
+	illegal    []string         // lexemes mapped to ILLEGAL
+	strDelims  map[byte]int64   // opening delimiter -> token type of the open class (STRING / RAW_STRING)
+	identType  bool             // identifier-start class present
+	numTypes   map[int64]bool   // token types produced by the number scanner
+	sites      int              // token construction sites in the dispatcher
 	dispatcher *ast.FuncDecl
 	problems   []string
 }
@@ -587,22 +587,22 @@ func (lt *lexemeTable) dump(tc *tokConsts) map[string]any {
 // E3 parser tables
 
 type parserTables struct {
-	prec       map[int64]int64 // token -> level (package-level table)
-	precPos    map[int64]token.Pos
-	prefix     map[int64]*types.Func
-	infix      map[int64]*types.Func
-	entryPos   map[string]token.Pos
-	dispatch   map[int64]*types.Func // statement dispatch
+	prec            map[int64]int64 // token -> level (package-level table)
+	precPos         map[int64]token.Pos
+	prefix          map[int64]*types.Func
+	infix           map[int64]*types.Func
+	entryPos        map[string]token.Pos
+	dispatch        map[int64]*types.Func // statement dispatch
 	dispatchDefault *types.Func
-	ctor       *ast.FuncDecl
-	baseStmt   *ast.FuncDecl
-	baseExpr   *ast.FuncDecl
-	stmtFld    *types.Var
-	exprFld    *types.Var
-	prefixFld  *types.Var
-	infixFld   *types.Var
-	precFld    *types.Var
-	problems   []string
+	ctor            *ast.FuncDecl
+	baseStmt        *ast.FuncDecl
+	baseExpr        *ast.FuncDecl
+	stmtFld         *types.Var
+	exprFld         *types.Var
+	prefixFld       *types.Var
+	infixFld        *types.Var
+	precFld         *types.Var
+	problems        []string
 }
 
 func (c *Ctx) parserTables() *parserTables {
